@@ -1,5 +1,6 @@
 import CssVerif.Model.Out
 import CssVerif.Model.OutRules
+import CssVerif.Model.OutEffectDom
 /-!
 Line-protocol driver for the serializer model (C06).
 
@@ -289,6 +290,13 @@ def handle (line : String) : String :=
     match sl.toNat?, pPrefs rest with
     | some sl, some (p, ts) => match done (pSheet fuel ts) with
       | some o => showRes (doSheet p sl o)
+      | none => "bad-op"
+    | _, _ => "bad-op"
+  | "effsheet" :: sl :: rest =>
+    -- the transformed DOM under the record with the leaf preferences switched to "as written"
+    match sl.toNat?, pPrefs rest with
+    | some sl, some (p, ts) => match done (pSheet fuel ts) with
+      | some o => showRes (doSheet (neutralLeaf p) sl (effectSheet p o))
       | none => "bad-op"
     | _, _ => "bad-op"
   | _ => "bad-op"
